@@ -280,7 +280,17 @@ def vocab(ctx, mi, T):
   # S3: one-sided special case
   rd = ctx.func('chord_symbols_lib:_add_scale_degree')
   rsp = reader_special(rd.node)
-  if rsp is UNREADABLE:
+  folded_bad = None
+  if rsp is UNREADABLE and special is not None:
+    # a reader that is one store `degrees[degree] = E(degree, alter)`: E is folded for the adjusted degree and another one, alterations
+    # -1, 0, +1 (lookups in module-level literal tables resolved first), and compared with what the writer's adjustment needs
+    folded_bad = _fold_added_degree(ctx, mi, rd, special)
+  if folded_bad:
+    ctx.ob('SEVENTH/reader', rd, folded_bad[0], False, '`%s` stores %s for an added degree %d written with alteration %+d; the writer spells that degree relative to an adjustment of %+d, so the '
+           'reader must store %+d: what the writer names "(add%s%d)" reads back as another pitch' % (norm_text(folded_bad[0])[:70], folded_bad[3], folded_bad[1], folded_bad[2], special[1], folded_bad[4],
+                                                                                          '#' * folded_bad[2] if folded_bad[2] >= 0 else 'b' * -folded_bad[2], folded_bad[1]),
+           construct='reader: add on degree 7 is relative to the dominant seventh', definite=True)
+  elif rsp is UNREADABLE:
     why_ = 'cannot classify: how _add_scale_degree turns the written alteration of an added degree into the stored one is not read path-wise'
     ctx.ob('SEVENTH/reader', rd, rd.node, False, why_, construct='reader: add on degree 7 is relative to the dominant seventh', unknown=why_)
     ctx.ob('SEVENTH/writer-inverse', fi, fn, False, why_, construct='writer: inverse of the reader\'s added-seventh adjustment', unknown=why_)
@@ -744,6 +754,52 @@ def modification_table_roles(ctx, rule='TAB/modification-roles'):
                key, got_fn, got_alter, want_fn[stem], alter, key, key), construct='_DEGREE_MODIFICATIONS[%r]' % key, definite=True)
 
 
+def _fold_added_degree(ctx, mi, rd, special):
+  """(store, degree, alter, got, want) for the first disagreement, None when everything agrees or the reader is not a single foldable store."""
+  from sa import scenario
+  from fractions import Fraction
+  import copy as _copy
+  class _K(object):
+    def __init__(self, v):
+      self.v = Fraction(v)
+    def const_value(self):
+      return self.v
+  fn = rd.node
+  body = [b for b in fn.body if not (isinstance(b, ast.Expr) and isinstance(b.value, ast.Constant)) and
+          not (isinstance(b, ast.If) and not b.orelse and all(isinstance(x, ast.Raise) for x in b.body))]      # rejecting guards aside
+  params = [a.arg for a in fn.args.args]
+  if len(body) != 1 or len(params) != 3 or not (isinstance(body[0], ast.Assign) and len(body[0].targets) == 1 and isinstance(body[0].targets[0], ast.Subscript)):
+    return None
+  st = body[0]
+  dname, aname = params[1], params[2]
+  try:
+    for degree in (special[0], 9 if special[0] != 9 else 11):
+      for alter in (-1, 0, 1):
+        e = _copy.deepcopy(st.value)
+        class Tab(ast.NodeTransformer):
+          def visit_Call(self, c):
+            self.generic_visit(c)
+            if isinstance(c.func, ast.Attribute) and c.func.attr == 'get' and isinstance(c.func.value, ast.Name) and c.func.value.id in mi.assigns and len(c.args) in (1, 2) and \
+                isinstance(c.args[0], ast.Name) and c.args[0].id == dname and isinstance(mi.assigns[c.func.value.id][0], ast.Dict):
+              tab = ast.literal_eval(mi.assigns[c.func.value.id][0])
+              dflt = ast.literal_eval(c.args[1]) if len(c.args) == 2 else None
+              v = tab.get(degree, dflt)
+              if not isinstance(v, int):
+                raise ValueError
+              return ast.copy_location(ast.Constant(value=v), c)
+            return c
+        e = Tab().visit(e)
+        got = scenario.fold_numeric(e, {dname: _K(degree), aname: _K(alter)})
+        if got is None or isinstance(got, bool):
+          return None
+        want = alter - (special[1] if degree == special[0] else 0)
+        if got != want:
+          return (st, degree, alter, got, want)
+  except Exception:      # pylint: disable=broad-except
+    return None
+  return None
+
+
 def alteration_accumulates(ctx, rule='ALTER/accumulates'):
   """"(b5)" on a chord whose fifth is already diminished, "(#9)" after "(b9)": the altering reader *adds* its alteration to what the
   degree already carries; only an absent degree is set.  In the function the bare accidentals dispatch to, some store into
@@ -969,3 +1025,4 @@ EXPLANATION += (' Round 7: ' + 'VOCAB/modifications-by-pattern; VOCAB/accidental
 EXPLANATION += (' Rounds 9-10: ' + 'RX/root-takes-its-accidentals (rx.shadowed_alternatives on the regex AST); PITFALL/misaligned-index.')
 EXPLANATION += (' Round 11: ' + 'RX/longest-alternative-first (rx.prefix_shadowed); KEYERR/regex-group-into-table; PITFALL/previous-wraps for filtered counts; SEVENTH read from a returned value.')
 EXPLANATION += (' Round 12: ' + 'TAB/modification-roles; SHAPE/bass-over-all-pitches; PITCHCLASS/wrap-both-ways.')
+EXPLANATION += (' Round 14: ' + 'ALTER/accumulates; SHAPE/empty located for a lone pitch; SEVENTH/reader folded over (degree, alteration) when the reader is one store.')
